@@ -30,16 +30,19 @@ type FileManager struct {
 	patch map[string][]*plugin.Generated
 	index map[string]int
 	count map[string]int
-	log   backend.LogFunc
+	// origin maps the name given to a renamed file to the name it was submitted under.
+	origin map[string]string
+	log    backend.LogFunc
 }
 
 // NewFileManager creates a new FileManager.
 func NewFileManager(log backend.LogFunc) *FileManager {
 	return &FileManager{
-		patch: make(map[string][]*plugin.Generated),
-		index: make(map[string]int),
-		count: make(map[string]int),
-		log:   log,
+		patch:  make(map[string][]*plugin.Generated),
+		index:  make(map[string]int),
+		count:  make(map[string]int),
+		origin: make(map[string]string),
+		log:    log,
 	}
 }
 
@@ -72,8 +75,12 @@ FileLoop:
 				cnt := 1
 
 				var renamed string
+				// own tells whether files[idx] is the file of this name or one of
+				// its earlier renames; a file that was submitted under a probed
+				// name directly is unrelated, whatever its content
+				own := true
 				for {
-					if fm.files[idx].Content == f.Content { // duplicate content
+					if own && fm.files[idx].Content == f.Content { // duplicate content
 						fm.log.Info(fmt.Sprintf("[%s] discard generated file '%s': size %d", src, name, len(f.Content)))
 						for j := i + 1; j < len(files) && !files[j].IsSetName(); j++ {
 							fm.log.Info("discard patch @", files[j].GetInsertionPoint())
@@ -90,11 +97,13 @@ FileLoop:
 						break
 					}
 					idx = next
+					own = fm.origin[renamed] == name
 					cnt++
 				}
 
 				fm.log.Warn(fmt.Sprintf("[%s] file names conflict: '%s' (%d <> %d)", src, name, len(fm.files[fst].Content), len(f.Content)))
 				fm.index[renamed] = len(fm.files)
+				fm.origin[renamed] = name
 				fm.files = append(fm.files, f)
 				fm.count[name]++
 				f.Name = &renamed
